@@ -135,7 +135,7 @@ def pre_existing(rng, out, subfiles, target):
     return existing
 
 
-def do_save(p, cfg, path, multifile, overwrite, fail_open_at=None):
+def do_save(p, cfg, path, multifile, overwrite, fail_open_at=None, fmt=None):
     AUDIT["events"] = []
     AUDIT["on"] = True
     real_open = builtins.open
@@ -151,7 +151,7 @@ def do_save(p, cfg, path, multifile, overwrite, fail_open_at=None):
     try:
         if fail_open_at is not None:
             builtins.open = failing_open
-        o = call(p.save, cfg, path, multifile=multifile, overwrite=overwrite)
+        o = call(p.save, cfg, path, multifile=multifile, overwrite=overwrite, **({"format": fmt} if fmt else {}))
     finally:
         builtins.open = real_open
         AUDIT["on"] = False
@@ -185,8 +185,13 @@ def case(ctx, i, rng):
         faults.append(("unserialisable-value", (key, Fragile("boom"))))
     for k in (1, 2, 3, 4):
         faults.append(("oserror-at-write-open", k))
+    # a string the output encoding cannot write (a lone surrogate: what a non-UTF-8 byte in argv becomes); the json format
+    # writes it raw, so the failure comes when the text is written
+    unenc = [("unencodable-value", (key, "caf\udce9")) for key in ("s", "dc.inner.name", "m.init_args.b")]
     if ctx.tier == "quick":
-        faults = [faults[0]] + rng.sample(faults[1:], 5)
+        faults = [faults[0]] + rng.sample(faults[1:], 5) + [rng.choice(unenc)]
+    else:
+        faults += unenc
     for kind, detail in faults:
         # fresh copy of the output dir state for every fault position
         for fn in os.listdir(out):
@@ -195,13 +200,13 @@ def case(ctx, i, rng):
             with open(os.path.join(out, fn), "w") as f:
                 f.write(text)
         cfg = copy.deepcopy(cfg0)
-        if kind in ("invalid-value", "unserialisable-value"):
+        if kind in ("invalid-value", "unserialisable-value", "unencodable-value"):
             key, val = detail
             try:
                 cfg[key] = val
             except Exception:
                 continue
-            if kind == "invalid-value" and key.startswith("m.") and cfg.get("m") is None:
+            if key.startswith("m.") and kind != "unserialisable-value" and cfg.get("m") is None:
                 continue
         before = snapshot(out)
         path = os.path.join(out, target)
@@ -211,7 +216,7 @@ def case(ctx, i, rng):
         os.environ["HOME"] = out
         os.chdir(out)
         try:
-            o, opens = do_save(p, cfg, given_path, multifile, overwrite, fail_open_at=detail if kind == "oserror-at-write-open" else None)
+            o, opens = do_save(p, cfg, given_path, multifile, overwrite, fail_open_at=detail if kind == "oserror-at-write-open" else None, fmt="json" if kind == "unencodable-value" else None)
         finally:
             os.chdir(cwd)
             if old_home is not None:
@@ -230,6 +235,9 @@ def case(ctx, i, rng):
             ctx.violation("save", f"existing-file-modified-without-overwrite/{kind}/{'multifile' if multifile else 'single'}", dict(w, changed=changed, removed=removed))
             continue
         if o.accepted:
+            if kind == "unencodable-value":
+                ctx.count("ev.save.unencodable_value_written")  # an encoding that can write it: nothing to judge here
+                continue
             if kind != "none" and kind != "oserror-at-write-open":
                 ctx.violation("save", f"save-succeeded-on-{kind}", dict(w))
                 continue
@@ -248,7 +256,7 @@ def case(ctx, i, rng):
         if refused:
             ctx.count("ev.save.refused_to_overwrite")
             continue  # only clause (1) applies to a refusal; it was checked above
-        if kind in ("invalid-value", "unserialisable-value"):
+        if kind in ("invalid-value", "unserialisable-value", "unencodable-value"):
             # (2) all-or-nothing: nothing created, truncated or changed
             if created or changed or removed:
                 what = "created" if created and not changed else ("truncated-or-changed" if changed else "removed")
